@@ -36,8 +36,9 @@ func c14Candidates(lvl int) []string {
 	)
 	if lvl > 0 {
 		g = gen.Alt(g,
-			gen.Seq(gen.Lit("1.0", "1.1"), gen.Opt(gen.Lit("a")), sfx, sfxS, gen.Opt(gen.Lit("-r1"))),
-			gen.Seq(gen.Lit("1.0"), sfxS, sfx, sfxS),
+			gen.Seq(gen.Lit("1.0", "1.1", "1", "1.0.0"), gen.Opt(gen.Lit("a", "z")), sfx, sfxS, gen.Opt(gen.Lit("-r1", "-r2"))),
+			gen.Seq(gen.Lit("1.0", "1"), sfxS, sfx, sfxS),
+			gen.Seq(gen.Lit("1.0"), gen.Opt(gen.Lit("a")), sfx, sfx),
 		)
 	}
 	return g
